@@ -164,7 +164,8 @@ public:
     }
     void destroyTree() override { tree.reset(); tv = TreeView(); }
     void makeAlgo() override {
-        algo.reset(AlgoHooks<Algo>::create(*conf, sc.upper));
+        if (sc.ctorWithKernel) { PK proto(*conf); algo.reset(new Algo(*conf, proto, sc.upper)); }
+        else algo.reset(AlgoHooks<Algo>::create(*conf, sc.upper));
         if constexpr (Cfg::periodic && !Tsm) { if (sc.topLevels >= -1) top.reset(new Top(*conf, sc.topLevels)); }
     }
     void destroyAlgo() override { algo.reset(); top.reset(); }
